@@ -124,10 +124,15 @@ func c04Tasks(tier string) []Task {
 	cfgs := []Cfg{defaultCfg}
 	c200 := defaultCfg
 	c200.FileSize = 200
-	cfgs = append(cfgs, c200)
+	mm := defaultCfg
+	mm.IO = 1 // MMap: lost bytes read as zeros, files keep their mapped size
+	cfgs = append(cfgs, c200, mm)
 	var tasks []Task
 	for _, cfg := range cfgs {
 		for bi, body := range bodies {
+			if cfg.IO == 1 && tier == "quick" && bi%4 != 0 {
+				continue // quick tier: every fourth body under MMap
+			}
 			cfg, body, bi := cfg, body, bi
 			tasks = append(tasks, Task{Level: fmt.Sprintf("body<=%d-pre<=%d-post<=%d", bodyLen, preLen, postLen), Name: fmt.Sprintf("%s body#%d [%s]", cfg, bi, traceString(body)), Fn: func(res *TaskResult) {
 				for _, syncOpt := range []int{0, 1} {
@@ -159,7 +164,7 @@ func init() {
 		Engine: "crash",
 		Rule:   "pre-history x ONE batch (all bodies up to the bound, BatchOptions.Sync false/true) x post-history: a crash image after every I/O event from the batch on (inside Commit and after it), recovered as is (process death) and with every admissible cut of unsynced tails (power loss); the recovered dump must equal S_j exactly (a half-applied batch equals no S_j) within the acknowledgement / durability window; plus live and clean-restart visibility after Commit, through Merge (both scan orders) + adopting restart + further restarts. non-trivial = batch bodies with more than one operation",
 		Assumptions: []string{
-			"Standard I/O; DataFileSize 130 (two staged S puts overflow mid-way) and 200",
+			"Standard I/O with DataFileSize 130 (two staged S puts overflow mid-way) and 200; MMap with 130 (quick tier: every fourth body)",
 			"crash model of C03",
 		},
 		Tasks: c04Tasks,
